@@ -30,6 +30,7 @@ import (
 	"fmt"
 	"math/big"
 
+	sdkmath "cosmossdk.io/math"
 	abci "github.com/cometbft/cometbft/abci/types"
 	"github.com/cometbft/cometbft/crypto/tmhash"
 	tmproto "github.com/cometbft/cometbft/proto/tendermint/types"
@@ -125,6 +126,17 @@ var k10 = Pow10(10)
 // sets allowance[to][sender] = amount, logs Transfer and Approval), transferFrom; anything else reverts.
 const refundableInitCode = "61011d8061000d6000396000f360003560e01c806370a082311461003757806340c10f1914610044578063a9059cbb1461005257806323b872dd146100da575b600080fd5b6004355460005260206000f35b602435600435805482019055005b60243533548181106100325781900333556004358054820181558060005233602052816040600020558160005280337fddf252ad1be2c89b69c2b068fc378daa952ba7f163c4a11628f55a4df523b3ef60206000a333907f8c5be1e5ebec7d5bd14f71427d1e84f3dd0314c0f7b2291e5b200ac8c7c3b92560206000a3600160005260206000f35b6044356004358060005233602052604060002080548381106100325783900390558054828110610032578290039055602435805482019055600160005260206000f3"
 
+// bigFunds: genesis coins on top of the small ones: user, denom index, amount
+var bigFunds = []struct {
+	a, d int
+	x    string
+}{
+	{2, 3, "18446744073709551616"},                    // hard: 2^64 (+ 3000)
+	{3, 5, "340282366920938463463374607431768211456"}, // xrpb: 2^128 (+ 3*10^10)
+	{2, 4, "9223372036854775808"},                     // usdx: 2^63 (+ 50)
+	{1, 5, "1000000000000000000000000000000"},         // xrpb: 10^30 (+ 3*10^10)
+}
+
 type world struct {
 	tApp   app.TestApp
 	ctx    sdk.Context
@@ -165,6 +177,14 @@ func setup() *world {
 			sdk.NewInt64Coin("xyz", 77),
 			sdk.NewInt64Coin("ukava", 1_000_000_000),
 		)
+		// balances at and above the word boundaries, so that conversions of cosmos coins carry amounts
+		// that do not fit int64 / uint64 / two words (the other users keep the small balances)
+		for _, e := range bigFunds {
+			if e.a == i {
+				x, _ := new(big.Int).SetString(e.x, 10)
+				funds = funds.Add(sdk.NewCoin(denoms[e.d], sdkmath.NewIntFromBigInt(x)))
+			}
+		}
 		// look-alike denoms, held through the bank by some users
 		for d := firstLook; d <= lastLook; d++ {
 			if (d+i)%2 == 0 {
